@@ -112,6 +112,11 @@ def gen_value(rng, cls, f, cname):
         return rng.choice([float(wire), wire]), 'f:%d' % (wire * 10 ** 6)
     if d_type is str:
         n = w // 6
+        crit = gen.critical_tail_units(cls) if varlen else []
+        if crit and rng.random() < 0.5:
+            k = rng.choice(crit)          # message length right at a fragment boundary of the encoder
+            s = ''.join(rng.choice('ABCDEFGHIJKLMNOPQRSTUVWXYZ0123456789') for _ in range(k))
+            return s, 's:' + s.encode().hex()
         s = gen.random_text(rng, n)
         if varlen and s == '':
             s = 'A'
@@ -122,7 +127,8 @@ def gen_value(rng, cls, f, cname):
         if name.startswith('spare') or name.startswith('reserved'):
             return b'', 'y:' + ('00' * nb)
         if varlen:
-            k = rng.choice([1, 2, nb // 2, nb]) if nb > 1 else 1
+            crit = gen.critical_tail_units(cls)
+            k = rng.choice([1, 2, nb // 2, nb] + crit + crit) if nb > 1 else 1
             k = max(1, min(nb, k))
             data = bytes(rng.getrandbits(8) for _ in range(k))
             return data, 'y:' + data.hex()
